@@ -47,6 +47,11 @@ type tracer struct {
 	rep      *Report
 	ops      []Op
 	failed   string
+	hwms     []uint64 // high-water mark after every commit
+	// C10 bookkeeping for the current write transaction
+	noReaderTx  bool
+	freedPages  int
+	steady      bool
 }
 
 var curTracer *tracer
@@ -116,6 +121,13 @@ func usedLine(v *versionInfo) string {
 	}
 	sortU64(ids)
 	return fmt.Sprintf("txid=%d hwm=%d used=%s", v.txid, v.hwm, u64s(ids))
+}
+
+func (t *tracer) countFree(l string) {
+	var id, ovf int
+	if _, err := fmt.Sscanf(l, "free %d %d", &id, &ovf); err == nil {
+		t.freedPages += ovf + 1
+	}
 }
 
 func (t *tracer) replayObj(upto int) map[string]any {
@@ -245,9 +257,19 @@ func runTrace(rep *Report, dir, tag string, o optSet, ops []Op) *tracer {
 		case "beginw":
 			if r == "ok" {
 				t.emit("beginW", "ok")
+				t.noReaderTx = len(t.readers) == 0
+				t.freedPages = 0
+				// reclaimOK (1): with no reader open, every page released by earlier transactions
+				// is reusable now: nothing is pending after ReleasePendingPages
+				if t.noReaderTx {
+					if _, pend := t.e.DB.VerifFreelistState(); len(pend) != 0 {
+						t.rep.violation("C10", "monitor", "pending-after-begin-without-readers", fmt.Sprintf("op %d: write transaction began with no reader open, yet %d pages are still pending", i, len(pend)), t.replayObj(i))
+					}
+				}
 			}
 		case "beginr":
 			if r == "ok" {
+				t.noReaderTx = false
 				t.emit("beginR", "ok")
 				tx := t.e.R[op.Tx]
 				v := &versionInfo{txid: uint64(tx.ID()), dump: "dump:" + hashStr(dumpTx(tx))}
@@ -267,6 +289,7 @@ func runTrace(rep *Report, dir, tag string, o optSet, ops []Op) *tracer {
 			}
 			for _, l := range t.buf {
 				t.emit(l, "ok")
+				t.countFree(l)
 			}
 			t.buf = nil
 			if op.K == "rollback" {
@@ -275,6 +298,19 @@ func runTrace(rep *Report, dir, tag string, o optSet, ops []Op) *tracer {
 				t.emit("commit", "ok")
 				t.checkWrites(i, true)
 				t.afterCommitted(i)
+				if t.cur != nil {
+					t.hwms = append(t.hwms, t.cur.hwm)
+				}
+				// reclaimOK (2): after a commit that began and ran without readers, at most the
+				// pages released by that very commit are withheld
+				if t.noReaderTx {
+					if _, pend := t.e.DB.VerifFreelistState(); len(pend) != t.freedPages {
+						t.rep.violation("C10", "monitor", "pending-not-own-frees", fmt.Sprintf("op %d: commit without readers leaves %d pages pending but the transaction released %d", i, len(pend), t.freedPages), t.replayObj(i))
+					}
+					if st := t.e.DB.Stats(); st.PendingPageN != t.freedPages {
+						t.rep.violation("C10", "monitor", "stats-pending-mismatch", fmt.Sprintf("op %d: Stats.PendingPageN = %d, released by this commit: %d", i, st.PendingPageN, t.freedPages), t.replayObj(i))
+					}
+				}
 			} else {
 				t.emit("failedCommit", "ok")
 				t.checkWrites(i, false)
@@ -285,6 +321,7 @@ func runTrace(rep *Report, dir, tag string, o optSet, ops []Op) *tracer {
 			// allocator events of ordinary operations (DeleteBucket frees pages at once)
 			for _, l := range t.buf {
 				t.emit(l, "ok")
+				t.countFree(l)
 			}
 			t.buf = nil
 		}
@@ -333,14 +370,45 @@ func traceEngine() {
 		o := randOpts(rng)
 		g := NewGen(rng.Int63(), o.PageSize)
 		ops := g.History(5+rng.Intn(14), true, true)
+		steady := pi%6 == 5
+		if steady {
+			ops = steadyOverwrite(rng, o.PageSize)
+		}
 		t := runTrace(rep, dir, fmt.Sprintf("t%d", pi), o, ops)
+		t.steady = steady
 		checkTrace(rep, t)
 	}
 	rep.finish(start)
 }
 
+// steadyOverwrite: the same keys rewritten by 70 consecutive transactions, no readers.
+func steadyOverwrite(rng *rand.Rand, ps int) []Op {
+	ops := []Op{{K: "beginw"}, {K: "mkb", Tx: "w", Key: "s"}, {K: "commit"}}
+	nk := 20 + rng.Intn(100)
+	vlen := []int{10, 100, 300}[rng.Intn(3)]
+	for r := 0; r < 70; r++ {
+		ops = append(ops, Op{K: "beginw"})
+		for k := 0; k < nk; k++ {
+			ops = append(ops, Op{K: "put", Tx: "w", Path: []string{"s"}, Key: fmt.Sprintf("key%04d", k), Val: strings.Repeat(string(rune('a'+r%26)), vlen)})
+		}
+		ops = append(ops, Op{K: "commit"})
+		if r == 35 && rng.Intn(2) == 0 {
+			ops = append(ops, Op{K: "reopen"})
+		}
+	}
+	return ops
+}
+
 func checkTrace(rep *Report, t *tracer) {
 	rep.Programs++
+	// C10: a steady overwrite workload without readers does not grow the file without bound
+	if t.steady && len(t.hwms) >= 60 {
+		early, late := t.hwms[15], t.hwms[len(t.hwms)-1]
+		rep.count("steady-workloads")
+		if late > early+early/4+8 {
+			rep.violation("C10", "monitor", "steady-workload-grows", fmt.Sprintf("steady overwrite workload: high-water mark %d after 16 commits, %d after %d commits", early, late, len(t.hwms)), t.replayObj(len(t.ops)))
+		}
+	}
 	rep.Evaluations += len(t.lines)
 	commits, heldAcross := 0, false
 	for _, l := range t.lines {
